@@ -729,34 +729,35 @@ def part_from_matchfile(
                         part_note.id
                     )
                 )
+
+    def signature_position(bar, time_in_beats):
+        # position in divs; negative if it lies before the first note
+        # check if the signature is in a known measure (from notes)
+        if bar in bar_times.keys():
+            time_in_quarters = bar_times[bar]
+        else:
+            # no note in this measure: use the position in beats
+            time_in_quarters = beats_to_quarters(time_in_beats)
+        return int(round(divs * (time_in_quarters - offset)))
+
     # add time signatures
-    for ts_beat_time, ts_bar, tsg in ts:
+    ts_positions = [signature_position(ts_bar, t) for t, ts_bar, _ in ts]
+    for i, (ts_beat_time, ts_bar, tsg) in enumerate(ts):
         ts_beats = tsg.numerator
         ts_beat_type = tsg.denominator
-        # check if time signature is in a known measure (from notes)
-        if ts_bar in bar_times.keys():
-            bar_start_divs = int(
-                round(divs * (bar_times[ts_bar] - offset))
-            )  # in quarters
-        else:
-            # no note in this measure: use the position in beats
-            bar_start_divs = int(
-                round(divs * (beats_to_quarters(ts_beat_time) - offset))
-            )
-        bar_start_divs = max(0, bar_start_divs)
+        if i + 1 < len(ts) and ts_positions[i + 1] <= 0:
+            # replaced by the next time signature before the first note
+            continue
+        bar_start_divs = max(0, ts_positions[i])
         part.add(score.TimeSignature(ts_beats, ts_beat_type), bar_start_divs)
     # add key signatures
-    for ks_beat_time, ks_bar, keys in mf.key_signatures:
-        if ks_bar in bar_times.keys():
-            bar_start_divs = int(
-                round(divs * (bar_times[ks_bar] - offset))
-            )  # in quarters
-        else:
-            # no note in this measure: use the position in beats
-            bar_start_divs = int(
-                round(divs * (beats_to_quarters(ks_beat_time) - offset))
-            )
-        bar_start_divs = max(0, bar_start_divs)
+    ks = mf.key_signatures
+    ks_positions = [signature_position(ks_bar, t) for t, ks_bar, _ in ks]
+    for i, (ks_beat_time, ks_bar, keys) in enumerate(ks):
+        if i + 1 < len(ks) and ks_positions[i + 1] <= 0:
+            # replaced by the next key signature before the first note
+            continue
+        bar_start_divs = max(0, ks_positions[i])
 
         # TODO
         # * use key estimation if there are multiple defined keys
